@@ -131,7 +131,8 @@ func (u *Unit) Query(o *Obligation, wantModel bool, relaxed bool) string {
 		if !keep[ci] {
 			continue
 		}
-		if relaxed && strings.HasPrefix(c, "(assert (forall") {
+		if relaxed && strings.HasPrefix(c, "(assert ") && strings.Contains(c, "(forall (") {
+			// any assumption with a quantifier in it (also a path-guarded one) is left out of the relaxation
 			continue
 		}
 		b.WriteString(c)
